@@ -1,29 +1,36 @@
 """Build and drive the Go correspondence harness (/verif/harness) against /repo's working tree."""
-import json, os, subprocess, tempfile, shutil, time
+import json, os, subprocess, tempfile, shutil, time, threading
 
 VERIF = os.path.dirname(os.path.dirname(os.path.abspath(__file__)))
 GOENV = dict(os.environ, GOFLAGS="-mod=mod", GOPROXY="off", GOSUMDB="off", GOTOOLCHAIN="local",
              GOWORK="off", CGO_ENABLED=os.environ.get("CGO_ENABLED", "0"))
 
 _scratch = None
+_lock = threading.RLock()       # the sharded runners call scratch() and build_harness() from several threads at once
 
 
 def scratch():
     """Scratch directory outside /repo and /verif, removed at exit."""
     global _scratch
-    if _scratch is None:
-        base = os.environ.get("VERIF_SCRATCH_BASE", "/var/tmp")
-        os.makedirs(base, exist_ok=True)
-        _scratch = tempfile.mkdtemp(prefix="vverif-", dir=base)
-        import atexit
-        atexit.register(lambda: shutil.rmtree(_scratch, ignore_errors=True))
-    return _scratch
+    with _lock:
+        if _scratch is None:
+            base = os.environ.get("VERIF_SCRATCH_BASE", "/var/tmp")
+            os.makedirs(base, exist_ok=True)
+            _scratch = tempfile.mkdtemp(prefix="vverif-", dir=base)
+            import atexit
+            atexit.register(lambda: shutil.rmtree(_scratch, ignore_errors=True))
+        return _scratch
 
 
 _built = {}
 
 
 def build_harness(tags="verif", race=False):
+    with _lock:
+        return _build_harness(tags, race)
+
+
+def _build_harness(tags, race):
     key = (tags, race)
     if key in _built:
         return _built[key]
